@@ -11,7 +11,7 @@ def conv(a):
         return ('tmpl', a[1], [p if isinstance(p, int) else (tuple(p) if isinstance(p, list) else p.encode('latin1')) for p in a[2]])
     return tuple(a)
 pkg = common.FP if h.startswith('vH_EL') or h.startswith('vH_FP') else common.RJSON
-job = Job(h, [conv(a) for a in args], pkg=pkg, timeout=float(sys.argv[3]) if len(sys.argv) > 3 else None, opts={'solver_timeout_ms': 10000, 'float_contract': not h.startswith('vH_EL') and not h.startswith('vH_FP'), 'bits_intrinsics': h.startswith('vH_EL'), 'ex.ite_merging': not h == 'vH_FP_set', 'fx_model': h == 'vH_FP_exact', 'glue': h == 'vH_FP_glue', 'slowpath': h == 'vH_FP_slow', 'absdec': h == 'vH_FP_absbits', 'scanvalue': h in ('vH_FP_scan', 'vH_FP_shift', 'vH_FP_set', 'vH_FP_round', 'vH_FP_halfway'), 'bv_only': os.environ.get('BV_ONLY') == '1'})
+job = Job(h, [conv(a) for a in args], pkg=pkg, timeout=float(sys.argv[3]) if len(sys.argv) > 3 else None, opts={'solver_timeout_ms': 10000, 'float_contract': not h.startswith('vH_EL') and not h.startswith('vH_FP'), 'bits_intrinsics': h.startswith('vH_EL'), 'ex.ite_merging': not h == 'vH_FP_set', 'fx_model': h == 'vH_FP_exact', 'glue': h == 'vH_FP_glue', 'slowpath': h == 'vH_FP_slow', 'absdec': h == 'vH_FP_absbits', 'scanvalue': h in ('vH_FP_scan', 'vH_FP_shift', 'vH_FP_set', 'vH_FP_round', 'vH_FP_halfway', 'vH_FP_expo'), 'bv_only': os.environ.get('BV_ONLY') == '1'})
 c = Check('DBG', 'quick')
 c.add(job)
 t = time.time()
